@@ -176,9 +176,19 @@ class EvTables:
         """shorten crate-local names and give renamed schema functions their canonical names"""
         t = local_names(t, self.ev)
         self.roles()
-        ren = self._cache.get("rename") or {}
-        if not ren:
+        ren = dict(self._cache.get("rename") or {})
+        ren.update(getattr(self.F, "cat_atom_rename", {}))
+        cpath = getattr(self.F, "cat_path_rename", None)
+        if not ren and not cpath:
             return t
+        if cpath:
+            def r0(x):
+                if isinstance(x, tuple):
+                    return tuple(r0(y) for y in x)
+                if isinstance(x, str) and cpath[0] in x:
+                    return x.replace(cpath[0], cpath[1])
+                return x
+            t = r0(t)
 
         def r(x):
             if isinstance(x, tuple):
@@ -551,6 +561,26 @@ class EvTables:
                     out[v] = cat
         return out
 
+    def prec_table_raw(self):
+        """Token-variant -> category variant as written (whatever the enum and its variants are called)"""
+        f = self.fn("::token::Token::get_oper_prec")
+        if f is None:
+            return {}
+        t = T.normalise(self.TR.term(T.body_of(f), T.Ctx(inline_pure=True)))
+        out = {}
+        if not (isinstance(t, tuple) and t[0] == "match"):
+            return {}
+        for arm in t[2:]:
+            if len(arm) != 2:
+                continue
+            e = M("(ctor ?c)", arm[-1])
+            if e is None:
+                continue
+            for v in self._pat_variants(arm[0]):
+                if v not in out:
+                    out[v] = e["?c"].split("::")[-1]
+        return out
+
     def _pat_variants(self, pat):
         if pat == "_":
             return ["_"]
@@ -571,23 +601,95 @@ class EvTables:
         return pt.get(tokvar, pt.get("_"))
 
 
-def category_order(F):
-    """(variants in declaration order, derived PartialOrd?, manual impls)"""
+CANON_CAT_PATH = "utils::operator_category::OperatorCategory"
+
+
+def catinfo(F):
+    """the precedence-category enum: by its conventional path, otherwise the field-less utils enum that the
+    tokens' category method returns"""
+    if hasattr(F, "_catinfo"):
+        return F._catinfo
     adt = None
     for a in F.doc["adts"]:
-        if a["path"].endswith("operator_category::OperatorCategory"):
+        if a["path"] == CANON_CAT_PATH:
             adt = a
     if adt is None:
+        outs = set()
+        for f in F.fns:
+            if re.search(r"::token::Token::\w+$", f.key) and f.thir and not f.derived and len(f.j.get("inputs") or []) == 1:
+                outs.add(f.j.get("output"))
+        c = [a for a in F.doc["adts"] if a["path"] in outs and a.get("kind") == "Enum" and all(not v["fields"] for v in a["variants"])]
+        adt = c[0] if len(c) == 1 else None
+    F._catinfo = adt
+    return adt
+
+
+def level_order(F, adt):
+    """A hand-written `impl PartialOrd` that compares `self.level()` with `other.level()`, level being a match from
+    the variants to distinct integer literals: the order is the order of the levels.  Returns the variant names
+    sorted by level, or None."""
+    last = adt["path"].split("::")[-1]
+    pc = None
+    for f in F.fns:
+        if f.j.get("impl_trait") == "std::cmp::PartialOrd" and (f.j.get("impl_self") or "").endswith(last) and not f.derived and f.thir:
+            if f.key.endswith("::partial_cmp"):
+                pc = f
+            else:
+                return None        # lt/le/gt/ge overridden by hand: not analysed
+    if pc is None:
+        return None
+    t = T.normalise(T.Translator(F).term(T.body_of(pc), T.Ctx(inline_pure=True)))
+    ps = [p[1] for p in T.param_ids(pc)]
+    A = ("|", ("param", ps[0]), ("var", ps[0]))
+    B = ("|", ("param", ps[1]), ("var", ps[1]))
+    e = M(("call", "?cmp", ("call", "?lv", A), ("call", "?lv", B)), t)
+    if e is None or not re.match(r"^<(u8|u16|u32|u64|usize|i8|i16|i32|i64) as cmp::(PartialOrd>::partial_cmp)$", str(e["?cmp"])):
+        e = M(("Some", ("call", "?cmp", ("call", "?lv", A), ("call", "?lv", B))), t)
+        if e is None or not re.match(r"^<(u8|u16|u32|u64|usize|i8|i16|i32|i64) as cmp::Ord>::cmp$", str(e["?cmp"])):
+            return None
+    lf = F.by_key.get(e["?lv"]) or next((f for f in F.fns if f.key.endswith("::" + str(e["?lv"]).split("::")[-1]) and (f.j.get("impl_self") or f.key).find(last) >= 0 and f.thir and not f.j.get("impl_trait")), None)
+    if lf is None:
+        return None
+    lt = T.normalise(T.Translator(F).term(T.body_of(lf), T.Ctx(inline_pure=True)))
+    if not (isinstance(lt, tuple) and lt[0] == "match"):
+        return None
+    lv = {}
+    for arm in lt[2:]:
+        if len(arm) != 2 or not (isinstance(arm[1], tuple) and arm[1][0] == "lit"):
+            return None
+        pats = arm[0][1:] if arm[0][0] == "por" else (arm[0],)
+        for p_ in pats:
+            if not (isinstance(p_, tuple) and p_[0] == "pvar"):
+                return None
+            lv[p_[1].split("::")[-1]] = int(arm[1][1])
+    names = [v["name"] for v in adt["variants"]]
+    if set(lv) != set(names) or len(set(lv.values())) != len(lv):
+        return None
+    return sorted(names, key=lambda n: lv[n])
+
+
+def category_order(F):
+    """(variants from loosest to tightest under the type's PartialOrd, order is trustworthy?, other manual impls).
+    Derived PartialOrd: declaration order.  Hand-written comparison of integer levels: order of the levels."""
+    adt = catinfo(F)
+    if adt is None:
         return None, False, []
+    last = adt["path"].split("::")[-1]
     derived = False
     manual = []
     for i in F.doc["impls"]:
-        if i["self_ty"].endswith("OperatorCategory") and i["trait"] in ("std::cmp::PartialOrd", "std::cmp::Ord", "std::cmp::PartialEq"):
+        if i["self_ty"].endswith(last) and i["trait"] in ("std::cmp::PartialOrd", "std::cmp::Ord", "std::cmp::PartialEq"):
             if i["trait"] == "std::cmp::PartialOrd" and i["derived"]:
                 derived = True
             elif not i["derived"]:
                 manual.append(i["trait"])
-    return [v["name"] for v in adt["variants"]], derived, manual
+    names = [v["name"] for v in adt["variants"]]
+    if not derived and manual == ["std::cmp::PartialOrd"]:
+        lo = level_order(F, adt)
+        if lo is not None:
+            names, derived, manual = lo, True, []
+    ren = getattr(F, "cat_variant_rename", {})
+    return [ren.get(n, n) for n in names], derived, manual
 
 
 # ---------------------------------------------------------------------------
